@@ -10,6 +10,8 @@ from sa.guards import GuardView, atom_of, names_in
 from sa.index import own_nodes
 from sa.report import Ctx
 
+from .common import generic_sweeps
+
 EXPLANATION = (
     "Decides the representation discipline the reference-model equivalence rests on: (O1) write ownership - _count and "
     "_rank are written only by __init__ and union, _parent additionally by find, whose single write stores the root "
@@ -187,6 +189,7 @@ def run(ctx: Ctx):
         at = GuardView(cfg).guard_atoms(cfg.node_of(sub[0]))
         ok = atom_of("left > 0") in at
     ctx.ob("C20-O3", "R18 table", rs, "range_sum = prefix(right) - prefix(left - 1), the subtraction only for left > 0", ok, "", node=rs.node)
+    generic_sweeps(ctx)
 
 
 # ---------------------------------------------------------------------------------------------
